@@ -48,20 +48,39 @@ Lemma flat_map_rc {A} (f g : A -> list (diag * option (string * string))) l : (f
 Proof. intros H. induction l as [|x l IH]; simpl; [reflexivity|]. rewrite map_app, H, IH. reflexivity. Qed.
 
 Section Checkers.
-Variable fs : facts.
+(* fs: the facts of the original run; fs': the facts of the relabelled run - they may differ (the positions recorded in the
+   package's own annotations move too) as long as every index answers alike *)
+Variable fs fs' : facts.
 Variable cur cur_name : string.
+Hypothesis Hic : forall p t, imm_contains fs' p t = imm_contains fs p t.
+Hypothesis Hmm : forall p f t, mut_match fs' p f t = mut_match fs p f t.
+Hypothesis Hcn : forall p t, ctor_names fs' p t = ctor_names fs p t.
+Hypothesis Htt : forall p t, tonl_type fs' p t = tonl_type fs p t.
+Hypothesis Htf : forall p f, tonl_func fs' p f = tonl_func fs p f.
+Hypothesis Htm : forall p m r, tonl_method fs' p m r = tonl_method fs p m r.
+Hypothesis Hpa : forall k p r n, pkgo_attach fs' k p r n = pkgo_attach fs k p r n.
+Hypothesis Hie : imm_index_empty fs' = imm_index_empty fs.
+Hypothesis Hce : ctor_index_empty fs' = ctor_index_empty fs.
+Hypothesis Hth : forall k, tonl_has k fs' = tonl_has k fs.
+Hypothesis Hpe : pkgo_index_empty fs' = pkgo_index_empty fs.
+
+Lemma in_ctor_agree st p t : in_ctor fs' cur st p t = in_ctor fs cur st p t.
+Proof. unfold in_ctor, ctor_match. rewrite Hcn. reflexivity. Qed.
 
 (* --- immutable --- *)
-Lemma field_target_rl st sel : imm_field_target fs cur st (rl sel) = imm_field_target fs cur st sel.
-Proof. unfold imm_field_target. rewrite rl_attrs. reflexivity. Qed.
-
-Lemma recv_target_rl st star : imm_recv_target fs cur st (rl star) = imm_recv_target fs cur st star.
+Lemma field_target_rl st sel : imm_field_target fs' cur st (rl sel) = imm_field_target fs cur st sel.
 Proof.
-  unfold imm_recv_target. rewrite rl_children. destruct (is_recv st) as [ri|]; [|reflexivity].
-  destruct (n_children star) as [|x rest]; [reflexivity|]. cbn [map]. rewrite rl_kind, rl_attrs. reflexivity.
+  unfold imm_field_target. rewrite rl_attrs. destruct (type_info (a_ty (n_attrs sel))) as [[p t]|]; [|reflexivity].
+  rewrite Hic, Hmm, in_ctor_agree. reflexivity.
 Qed.
 
-Lemma check_lhs_rl st e : imm_check_lhs fs cur st (rl e) = map rd (imm_check_lhs fs cur st e).
+Lemma recv_target_rl st star : imm_recv_target fs' cur st (rl star) = imm_recv_target fs cur st star.
+Proof.
+  unfold imm_recv_target. rewrite rl_children. destruct (is_recv st) as [ri|]; [|reflexivity].
+  destruct (n_children star) as [|x rest]; [reflexivity|]. cbn [map]. rewrite rl_kind, rl_attrs. rewrite Hic, in_ctor_agree. reflexivity.
+Qed.
+
+Lemma check_lhs_rl st e : imm_check_lhs fs' cur st (rl e) = map rd (imm_check_lhs fs cur st e).
 Proof.
   unfold imm_check_lhs. rewrite rl_kind. destruct (n_kind e); try reflexivity.
   - rewrite field_target_rl, rl_pos, rl_attrs. destruct (imm_field_target fs cur st e); reflexivity.
@@ -70,13 +89,13 @@ Proof.
   - rewrite recv_target_rl, rl_pos. destruct (imm_recv_target fs cur st e); reflexivity.
 Qed.
 
-Lemma check_compound_rl st tok e : imm_check_compound fs cur st tok (rl e) = map rd (imm_check_compound fs cur st tok e).
+Lemma check_compound_rl st tok e : imm_check_compound fs' cur st tok (rl e) = map rd (imm_check_compound fs cur st tok e).
 Proof.
   unfold imm_check_compound. rewrite rl_kind. destruct (n_kind e); try reflexivity.
   rewrite field_target_rl, rl_pos, rl_attrs. destruct (imm_field_target fs cur st e); reflexivity.
 Qed.
 
-Lemma imm_check_node_rl st n : imm_check_node fs cur st (rl n) = map rd (imm_check_node fs cur st n).
+Lemma imm_check_node_rl st n : imm_check_node fs' cur st (rl n) = map rd (imm_check_node fs cur st n).
 Proof.
   unfold imm_check_node. rewrite rl_kind, rl_attrs, rl_children, rl_pos. destruct (n_kind n); try reflexivity.
   - rewrite firstn_map, !flat_map_map. destruct (String.eqb (a_tok (n_attrs n)) "=").
@@ -91,16 +110,16 @@ Lemma recv_info_rl n : extract_recv_info (rl n) = extract_recv_info n.
 Proof. unfold extract_recv_info. rewrite rl_attrs. reflexivity. Qed.
 
 Lemma imm_step_rl st out n :
-  imm_step fs cur (st, map rd out) (rl n) = (fst (imm_step fs cur (st, out) n), map rd (snd (imm_step fs cur (st, out) n))).
+  imm_step fs' cur (st, map rd out) (rl n) = (fst (imm_step fs cur (st, out) n), map rd (snd (imm_step fs cur (st, out) n))).
 Proof.
   unfold imm_step. rewrite rl_kind. destruct (n_kind n); cbn [fst snd]; try (rewrite imm_check_node_rl, <- map_app; reflexivity).
   rewrite rl_attrs, recv_info_rl. reflexivity.
 Qed.
 
-Lemma imm_decl_rl d : imm_decl fs cur (rl d) = map rd (imm_decl fs cur d).
+Lemma imm_decl_rl d : imm_decl fs' cur (rl d) = map rd (imm_decl fs cur d).
 Proof.
   unfold imm_decl. rewrite preorder_rl.
-  assert (G : forall l st out, fold_left (imm_step fs cur) (map rl l) (st, map rd out) =
+  assert (G : forall l st out, fold_left (imm_step fs' cur) (map rl l) (st, map rd out) =
                                (fst (fold_left (imm_step fs cur) l (st, out)), map rd (snd (fold_left (imm_step fs cur) l (st, out))))).
   { induction l as [|n l IH]; intros st out; [reflexivity|]. cbn [map fold_left]. rewrite imm_step_rl.
     destruct (imm_step fs cur (st, out) n) as [st' out']. cbn [fst snd]. apply IH. }
@@ -108,13 +127,13 @@ Proof.
 Qed.
 
 (* --- constructor --- *)
-Lemma ctor_viol_rl fn t pos code reason : ctor_viol fs cur fn t (phi pos) code reason = map rd (ctor_viol fs cur fn t pos code reason).
+Lemma ctor_viol_rl fn t pos code reason : ctor_viol fs' cur fn t (phi pos) code reason = map rd (ctor_viol fs cur fn t pos code reason).
 Proof.
-  unfold ctor_viol. destruct t as [[p tn]|]; [|reflexivity].
-  destruct (ctor_has_type fs p tn && negb (String.eqb cur p && ctor_match fs p fn tn)); reflexivity.
+  unfold ctor_viol. destruct t as [[p tn]|]; [|reflexivity]. unfold ctor_has_type, ctor_match. rewrite !Hcn.
+  destruct (match ctor_names fs p tn with [] => false | _ => true end && negb (String.eqb cur p && str_mem fn (ctor_names fs p tn))); reflexivity.
 Qed.
 
-Lemma ctor_check_node_rl fn n : ctor_check_node fs cur fn (rl n) = map rd (ctor_check_node fs cur fn n).
+Lemma ctor_check_node_rl fn n : ctor_check_node fs' cur fn (rl n) = map rd (ctor_check_node fs cur fn n).
 Proof.
   unfold ctor_check_node. rewrite rl_kind, rl_attrs, rl_children, rl_pos. destruct (n_kind n); try reflexivity.
   - destruct (String.eqb (a_tok (n_attrs n)) "var"); [|reflexivity]. rewrite flat_map_map. apply flat_map_rd. intros spec.
@@ -127,16 +146,16 @@ Proof.
 Qed.
 
 Lemma ctor_step_rl fn out n :
-  ctor_step fs cur (fn, map rd out) (rl n) = (fst (ctor_step fs cur (fn, out) n), map rd (snd (ctor_step fs cur (fn, out) n))).
+  ctor_step fs' cur (fn, map rd out) (rl n) = (fst (ctor_step fs cur (fn, out) n), map rd (snd (ctor_step fs cur (fn, out) n))).
 Proof.
   unfold ctor_step. rewrite rl_kind. destruct (n_kind n); cbn [fst snd]; try (rewrite ctor_check_node_rl, <- map_app; reflexivity).
   rewrite rl_attrs. reflexivity.
 Qed.
 
-Lemma ctor_decl_rl d : ctor_decl fs cur (rl d) = map rd (ctor_decl fs cur d).
+Lemma ctor_decl_rl d : ctor_decl fs' cur (rl d) = map rd (ctor_decl fs cur d).
 Proof.
   unfold ctor_decl. rewrite preorder_rl.
-  assert (G : forall l fn out, fold_left (ctor_step fs cur) (map rl l) (fn, map rd out) =
+  assert (G : forall l fn out, fold_left (ctor_step fs' cur) (map rl l) (fn, map rd out) =
                                (fst (fold_left (ctor_step fs cur) l (fn, out)), map rd (snd (fold_left (ctor_step fs cur) l (fn, out))))).
   { induction l as [|n l IH]; intros fn out; [reflexivity|]. cbn [map fold_left]. rewrite ctor_step_rl.
     destruct (ctor_step fs cur (fn, out) n) as [fn' out']. cbn [fst snd]. apply IH. }
@@ -162,45 +181,45 @@ Qed.
 Lemma func_recv_type_rl fd : func_recv_type (rl fd) = func_recv_type fd.
 Proof. unfold func_recv_type. rewrite recv_type_expr_rl. destruct (recv_type_expr fd); [apply extract_receiver_type_rl|reflexivity]. Qed.
 
-Lemma tonl_keep_rl n : tonl_keep fs cur (rl n) = tonl_keep fs cur n.
-Proof. unfold tonl_keep, in_testonly_context. rewrite rl_kind, rl_attrs, func_recv_type_rl. reflexivity. Qed.
+Lemma tonl_keep_rl n : tonl_keep fs' cur (rl n) = tonl_keep fs cur n.
+Proof. unfold tonl_keep, in_testonly_context. rewrite rl_kind, rl_attrs, func_recv_type_rl, Htm, Htf. reflexivity. Qed.
 
-Lemma tonl_type_cand_rl t pos : tonl_type_cand fs t (phi pos) = map rc (tonl_type_cand fs t pos).
-Proof. unfold tonl_type_cand. destruct (type_info t) as [[p tn]|]; [|reflexivity]. destruct (tonl_type fs p tn); reflexivity. Qed.
+Lemma tonl_type_cand_rl t pos : tonl_type_cand fs' t (phi pos) = map rc (tonl_type_cand fs t pos).
+Proof. unfold tonl_type_cand. destruct (type_info t) as [[p tn]|]; [|reflexivity]. rewrite Htt. destruct (tonl_type fs p tn); reflexivity. Qed.
 
-Lemma tonl_cands_rl n : tonl_cands fs (rl n) = map rc (tonl_cands fs n).
+Lemma tonl_cands_rl n : tonl_cands fs' (rl n) = map rc (tonl_cands fs n).
 Proof.
   unfold tonl_cands. rewrite rl_kind, rl_attrs, rl_children, rl_pos. destruct (n_kind n); try reflexivity; try apply tonl_type_cand_rl.
   - destruct (a_flag (n_attrs n)); [apply tonl_type_cand_rl|reflexivity].
   - destruct (n_children n) as [|f r]; [reflexivity|]. cbn [map]. rewrite rl_kind, rl_attrs, rl_children. destruct (n_kind f); try reflexivity.
     + destruct (n_children f) as [|x r']; cbn [map].
-      * destruct (type_info (a_ty (n_attrs f))) as [[p tn]|]; [|reflexivity]. destruct (tonl_method fs p (a_name (n_attrs f)) tn); reflexivity.
+      * destruct (type_info (a_ty (n_attrs f))) as [[p tn]|]; [|reflexivity]. rewrite Htm. destruct (tonl_method fs p (a_name (n_attrs f)) tn); reflexivity.
       * rewrite rl_kind, rl_attrs.
         destruct (match n_kind x, a_obj (n_attrs x) with
                   | KIdent, Some o => match o_kind o with OPkgName => Some (o_imported o) | _ => None end
                   | _, _ => None
                   end) as [p|].
-        -- destruct (tonl_func fs p (a_name (n_attrs f))); reflexivity.
-        -- destruct (type_info (a_ty (n_attrs f))) as [[p tn]|]; [|reflexivity]. destruct (tonl_method fs p (a_name (n_attrs f)) tn); reflexivity.
+        -- rewrite Htf. destruct (tonl_func fs p (a_name (n_attrs f))); reflexivity.
+        -- destruct (type_info (a_ty (n_attrs f))) as [[p tn]|]; [|reflexivity]. rewrite Htm. destruct (tonl_method fs p (a_name (n_attrs f)) tn); reflexivity.
     + destruct (a_obj (n_attrs f)) as [o|]; [|reflexivity]. destruct (o_kind o); try reflexivity. destruct (o_pkg o) as [p|]; [|reflexivity].
-      destruct (negb (o_is_method o) && tonl_func fs p (o_name o)); reflexivity.
+      rewrite Htf. destruct (negb (o_is_method o) && tonl_func fs p (o_name o)); reflexivity.
 Qed.
 
-Lemma pkgo_obj_cand_rl o declared pos : pkgo_obj_cand fs cur cur_name o declared (phi pos) = map rc (pkgo_obj_cand fs cur cur_name o declared pos).
+Lemma pkgo_obj_cand_rl o declared pos : pkgo_obj_cand fs' cur cur_name o declared (phi pos) = map rc (pkgo_obj_cand fs cur cur_name o declared pos).
 Proof.
-  assert (T : forall p tn, pkgo_type_cand fs cur cur_name p tn (phi pos) = map rc (pkgo_type_cand fs cur cur_name p tn pos)).
-  { intros p tn. unfold pkgo_type_cand. destruct (pkgo_attach fs AKType p "" tn); [reflexivity|].
+  assert (T : forall p tn, pkgo_type_cand fs' cur cur_name p tn (phi pos) = map rc (pkgo_type_cand fs cur cur_name p tn pos)).
+  { intros p tn. unfold pkgo_type_cand. rewrite Hpa. destruct (pkgo_attach fs AKType p "" tn); [reflexivity|].
     destruct (negb (String.eqb p cur) && negb (pkgo_allowed cur cur_name (s :: l))); reflexivity. }
   unfold pkgo_obj_cand. destruct (o_kind o); try reflexivity.
   - destruct (if o_is_alias o then named_direct (o_type o) else None) as [[tp tn]|]; apply T.
   - destruct (o_is_method o).
-    + unfold pkgo_method_cand. destruct (pkgo_attach fs AKMethod declared (type_name (o_recv o)) (o_name o)); [reflexivity|].
+    + unfold pkgo_method_cand. rewrite Hpa. destruct (pkgo_attach fs AKMethod declared (type_name (o_recv o)) (o_name o)); [reflexivity|].
       destruct (negb (String.eqb declared cur) && negb (pkgo_allowed cur cur_name (s :: l))); reflexivity.
-    + unfold pkgo_func_cand. destruct (pkgo_attach fs AKFunc declared "" (o_name o)); [reflexivity|].
+    + unfold pkgo_func_cand. rewrite Hpa. destruct (pkgo_attach fs AKFunc declared "" (o_name o)); [reflexivity|].
       destruct (negb (String.eqb declared cur) && negb (pkgo_allowed cur cur_name (s :: l))); reflexivity.
 Qed.
 
-Lemma pkgo_cands_rl n : pkgo_cands fs cur cur_name (rl n) = map rc (pkgo_cands fs cur cur_name n).
+Lemma pkgo_cands_rl n : pkgo_cands fs' cur cur_name (rl n) = map rc (pkgo_cands fs cur cur_name n).
 Proof.
   unfold pkgo_cands. rewrite rl_kind, rl_attrs, rl_pos. destruct (n_kind n); try reflexivity.
   - destruct (a_obj (n_attrs n)) as [o|]; [|reflexivity]. destruct (o_pkg o) as [p|]; [|reflexivity].
@@ -209,7 +228,7 @@ Proof.
     apply pkgo_obj_cand_rl.
 Qed.
 
-Lemma preorder_pruned_rl keep n : (forall m, keep (rl m) = keep m) -> preorder_pruned keep (rl n) = map rl (preorder_pruned keep n).
+Lemma preorder_pruned_rl keep' keep n : (forall m, keep' (rl m) = keep m) -> preorder_pruned keep' (rl n) = map rl (preorder_pruned keep n).
 Proof.
   intros Hk. induction n as [k p e a cs IH] using node_ind'.
   cbn [rl preorder_pruned]. change (Node k (phi p) (phi e) a (map rl cs)) with (rl (Node k p e a cs)). rewrite Hk.
@@ -238,37 +257,49 @@ Definition rl_file (f : file) : file :=
   {| f_name := f_name f; f_package := phi (f_package f); f_end := phi (f_end f); f_decls := map rl (f_decls f);
      f_comments := f_comments f; f_imports := f_imports f; f_lines := f_lines f |}.
 
-Theorem imm_candidates_rl files : imm_candidates fs cur (map rl_file files) = map rd (imm_candidates fs cur files).
+Theorem imm_candidates_rl_gen files : imm_candidates fs' cur (map rl_file files) = map rd (imm_candidates fs cur files).
 Proof.
-  unfold imm_candidates. destruct (imm_index_empty fs); [reflexivity|]. rewrite flat_map_map. apply flat_map_rd. intros f.
+  unfold imm_candidates. rewrite Hie. destruct (imm_index_empty fs); [reflexivity|]. rewrite flat_map_map. apply flat_map_rd. intros f.
   cbn [rl_file f_decls]. rewrite flat_map_map. apply flat_map_rd. intros d. apply imm_decl_rl.
 Qed.
 
-Theorem ctor_candidates_rl files : ctor_candidates fs cur (map rl_file files) = map rd (ctor_candidates fs cur files).
+Theorem ctor_candidates_rl_gen files : ctor_candidates fs' cur (map rl_file files) = map rd (ctor_candidates fs cur files).
 Proof.
-  unfold ctor_candidates. destruct (ctor_index_empty fs); [reflexivity|]. rewrite flat_map_map. apply flat_map_rd. intros f.
+  unfold ctor_candidates. rewrite Hce. destruct (ctor_index_empty fs); [reflexivity|]. rewrite flat_map_map. apply flat_map_rd. intros f.
   cbn [rl_file f_decls]. rewrite flat_map_map. apply flat_map_rd. intros d. apply ctor_decl_rl.
 Qed.
 
-Theorem tonl_diags_rl files : tonl_diags fs cur sup' (map rl_file files) = map rd (tonl_diags fs cur sup files).
+Theorem tonl_diags_rl_gen files : tonl_diags fs' cur sup' (map rl_file files) = map rd (tonl_diags fs cur sup files).
 Proof.
-  unfold tonl_diags. destruct (negb (tonl_has AKType fs) && negb (tonl_has AKFunc fs) && negb (tonl_has AKMethod fs)); [reflexivity|].
+  unfold tonl_diags. rewrite !Hth. destruct (negb (tonl_has AKType fs) && negb (tonl_has AKFunc fs) && negb (tonl_has AKMethod fs)); [reflexivity|].
   rewrite flat_map_map. apply flat_map_rd. intros f. unfold tonl_file. cbn [rl_file f_name f_decls].
   destruct (has_suffix "_test.go" (f_name f)); [reflexivity|].
   rewrite <- dedup_rl. f_equal.
   rewrite flat_map_map.
-  transitivity (flat_map (tonl_cands fs) (map rl (flat_map (preorder_pruned (tonl_keep fs cur)) (f_decls f)))).
+  transitivity (flat_map (tonl_cands fs') (map rl (flat_map (preorder_pruned (tonl_keep fs cur)) (f_decls f)))).
   - f_equal. induction (f_decls f) as [|d r IH]; [reflexivity|]. cbn [flat_map]. rewrite map_app, <- IH. f_equal.
     apply preorder_pruned_rl. apply tonl_keep_rl.
   - rewrite flat_map_map. apply flat_map_rc. intros n. apply tonl_cands_rl.
 Qed.
 
-Theorem pkgo_diags_rl files : pkgo_diags fs cur cur_name sup' (map rl_file files) = map rd (pkgo_diags fs cur cur_name sup files).
+Theorem pkgo_diags_rl_gen files : pkgo_diags fs' cur cur_name sup' (map rl_file files) = map rd (pkgo_diags fs cur cur_name sup files).
 Proof.
-  unfold pkgo_diags. destruct (pkgo_index_empty fs); [reflexivity|].
+  unfold pkgo_diags. rewrite Hpe. destruct (pkgo_index_empty fs); [reflexivity|].
   rewrite flat_map_map. apply flat_map_rd. intros f. unfold pkgo_file. cbn [rl_file f_decls].
   rewrite <- dedup_rl. f_equal. rewrite preorder_list_rl, flat_map_map. apply flat_map_rc. intros n. apply pkgo_cands_rl.
 Qed.
 
 End Checkers.
+
+(* the same facts on both sides *)
+Theorem imm_candidates_rl fs cur files : imm_candidates fs cur (map rl_file files) = map rd (imm_candidates fs cur files).
+Proof. apply imm_candidates_rl_gen; intros; reflexivity. Qed.
+Theorem ctor_candidates_rl fs cur files : ctor_candidates fs cur (map rl_file files) = map rd (ctor_candidates fs cur files).
+Proof. apply ctor_candidates_rl_gen; intros; reflexivity. Qed.
+Theorem tonl_diags_rl fs cur (sup sup' : string -> Z -> bool) :
+  (forall c q, sup' c (phi q) = sup c q) -> forall files, tonl_diags fs cur sup' (map rl_file files) = map rd (tonl_diags fs cur sup files).
+Proof. intros H files. apply tonl_diags_rl_gen; intros; try reflexivity. apply H. Qed.
+Theorem pkgo_diags_rl fs cur cur_name (sup sup' : string -> Z -> bool) :
+  (forall c q, sup' c (phi q) = sup c q) -> forall files, pkgo_diags fs cur cur_name sup' (map rl_file files) = map rd (pkgo_diags fs cur cur_name sup files).
+Proof. intros H files. apply pkgo_diags_rl_gen; intros; try reflexivity. apply H. Qed.
 End Relabel.
